@@ -910,6 +910,14 @@ func stateFoundArrayEnd(s *Scanner) state {
 // such as after reading `{}` or `[1,2,3]`.
 // Only space characters should be seen now.
 func stateEndTop(s *Scanner, c byte) state {
+	if s.hasTrailingCharacters {
+		// Length computing: the previous byte was the first one after the
+		// schema. Whatever follows it (a line break, "/" or "#" included) is
+		// not part of the schema either.
+		s.found(lexeme.EndTop)
+		return scanContinue
+	}
+
 	switch {
 	case s.isNewLine(c):
 		s.found(lexeme.NewLine)
@@ -928,19 +936,11 @@ func stateEndTop(s *Scanner, c byte) state {
 			// The first character after the schema. EndTop is reported on the
 			// next character, whether or not the last value is still open in
 			// the stack, so that Length() always finds it one past this one.
-			if !s.hasTrailingCharacters {
-				s.hasTrailingCharacters = true
-				return scanContinue
-			}
-			s.found(lexeme.EndTop)
+			s.hasTrailingCharacters = true
 			return scanContinue
 		} else if s.annotation == annotationNone {
 			panic(s.newDocumentErrorAtCharacter("non-space byte after top-level value"))
 		}
-	}
-
-	if s.hasTrailingCharacters {
-		s.found(lexeme.EndTop)
 	}
 	return scanContinue
 }
